@@ -44,10 +44,14 @@ type splitState struct {
 	diff   map[ssa.Value]iv // bounds of len(data) - v
 	absent []string         // look-ahead bytes known missing on this path
 	path   []*ssa.BasicBlock
+	havoc  map[ssa.Value]bool // loop-header phis standing for "after any number of trips"
 }
 
 func (s *splitState) clone() *splitState {
-	n := &splitState{atEOF: s.atEOF, lenIv: s.lenIv, val: map[ssa.Value]iv{}, diff: map[ssa.Value]iv{}}
+	n := &splitState{atEOF: s.atEOF, lenIv: s.lenIv, val: map[ssa.Value]iv{}, diff: map[ssa.Value]iv{}, havoc: map[ssa.Value]bool{}}
+	for k := range s.havoc {
+		n.havoc[k] = true
+	}
 	for k, v := range s.val {
 		n.val[k] = v
 	}
@@ -78,14 +82,15 @@ func (s *splitState) getDiff(v ssa.Value) iv {
 }
 
 type splitAnalysis struct {
-	p      *Prog
-	fn     *ssa.Function
-	data   *ssa.Parameter
-	atEOF  *ssa.Parameter
-	sites  []*lookahead // guarded look-ahead index sites
-	probs  []string
-	nPaths int
-	nRet   int
+	p         *Prog
+	fn        *ssa.Function
+	data      *ssa.Parameter
+	atEOF     *ssa.Parameter
+	sites     []*lookahead // guarded look-ahead index sites
+	probs     []string
+	undecided string
+	nPaths    int
+	nRet      int
 }
 
 type lookahead struct {
@@ -150,6 +155,24 @@ func (a *splitAnalysis) isIndexSearch(v ssa.Value) bool {
 // refine applies the branch condition (taken = which edge) to the state; false when infeasible.
 func (a *splitAnalysis) refine(s *splitState, cond ssa.Value, taken bool) bool {
 	switch c := cond.(type) {
+	case *ssa.Const:
+		if c.Value != nil && c.Value.Kind() == constant.Bool {
+			return constant.BoolVal(c.Value) == taken
+		}
+		return true
+	case *ssa.Phi:
+		// a && b / a || b: the operand that arrives is decided by the predecessor taken on this path
+		blk := c.Block()
+		for i := len(s.path) - 1; i > 0; i-- {
+			if s.path[i] == blk {
+				for j, pb := range blk.Preds {
+					if pb == s.path[i-1] {
+						return a.refine(s, c.Edges[j], taken)
+					}
+				}
+			}
+		}
+		return true
 	case *ssa.Parameter:
 		if c == a.atEOF {
 			want := 0
@@ -275,6 +298,9 @@ func (a *splitAnalysis) eval(s *splitState, v ssa.Value, depth int) iv {
 	if c, ok := v.(*ssa.Const); ok {
 		return s.getVal(c)
 	}
+	if s.havoc[v] {
+		return s.getVal(v)
+	}
 	if x, ok := s.val[v]; ok && (x.lo > ivAll.lo || x.hi < ivAll.hi) {
 		base := x
 		if b, ok := v.(*ssa.BinOp); ok {
@@ -354,13 +380,12 @@ func (a *splitAnalysis) run(l *Ledger, rule string) {
 			}
 		}
 	}
-	if hasLoop && len(a.sites) > 0 {
-		l.Undecide(rule, fname, key, pos, "split function contains a loop and a look-ahead read; the path enumeration of R8.2 does not cover loops")
+	_ = hasLoop
+	st := &splitState{atEOF: -1, lenIv: iv{0, ivAll.hi}, val: map[ssa.Value]iv{}, diff: map[ssa.Value]iv{}, havoc: map[ssa.Value]bool{}}
+	a.walk(fn.Blocks[0], st)
+	if a.undecided != "" {
+		l.Undecide(rule, fname, key, pos, a.undecided)
 		return
-	}
-	if !hasLoop {
-		st := &splitState{atEOF: -1, lenIv: iv{0, ivAll.hi}, val: map[ssa.Value]iv{}, diff: map[ssa.Value]iv{}}
-		a.walk(fn.Blocks[0], st)
 	}
 	if len(a.probs) > 0 {
 		l.Fail(rule, fname, key, pos, fname+": "+strings.Join(dedupKeep(a.probs), "; "))
@@ -373,11 +398,166 @@ func (a *splitAnalysis) run(l *Ledger, rule string) {
 	l.Prove(rule, fname, key, pos, fmt.Sprintf("%d look-ahead site(s), %d feasible paths, %d returns checked: whenever a look-ahead byte is missing and atEOF is not known, the function returns (0, nil, nil); every returned token advances", len(a.sites), a.nPaths, a.nRet))
 }
 
+// isLoopHeader: some predecessor of b is dominated by b.
+func isLoopHeader(b *ssa.BasicBlock) bool {
+	for _, p := range b.Preds {
+		if b.Dominates(p) {
+			return true
+		}
+	}
+	return false
+}
+
+// enterLoop replaces the header phis by "their value after any number of trips": a counter that only
+// grows keeps the lower bound of its initial value; len(data) - counter ≥ 0 is kept when it holds on
+// entry and one trip preserves it (checked by walking the body once under that assumption).
+func (a *splitAnalysis) enterLoop(b *ssa.BasicBlock, s *splitState) {
+	entry := s.path[len(s.path)-1]
+	var phis []*ssa.Phi
+	for _, ins := range b.Instrs {
+		ph, ok := ins.(*ssa.Phi)
+		if !ok {
+			break
+		}
+		phis = append(phis, ph)
+	}
+	type cand struct {
+		ph     *ssa.Phi
+		val    iv
+		diffOK bool
+	}
+	var cs []*cand
+	for _, ph := range phis {
+		if !isInteger(ph.Type()) {
+			s.havoc[ph] = true
+			continue
+		}
+		c := &cand{ph: ph, val: ivAll}
+		grows := true
+		var init iv
+		for j, pb := range b.Preds {
+			if pb == entry {
+				init = a.eval(s, ph.Edges[j], 0)
+				continue
+			}
+			if !b.Dominates(pb) {
+				grows = false // another way in: not a simple loop
+				continue
+			}
+			base, k := linear(ph.Edges[j])
+			if base != ssa.Value(ph) || k < 0 {
+				grows = false
+			}
+		}
+		if grows {
+			c.val = iv{init.lo, ivAll.hi}
+			// len - init ≥ 0 on entry?
+			if init.hi < ivAll.hi && init.hi <= s.lenIv.lo {
+				c.diffOK = true
+			}
+		}
+		cs = append(cs, c)
+	}
+	apply := func(st *splitState) {
+		for _, c := range cs {
+			st.havoc[c.ph] = true
+			st.val[c.ph] = c.val
+			if c.diffOK {
+				st.diff[c.ph] = iv{0, ivAll.hi}
+			} else {
+				delete(st.diff, c.ph)
+			}
+		}
+	}
+	// inductiveness of len - phi ≥ 0: one trip from the header back to it
+	for round := 0; round <= len(cs); round++ {
+		trial := s.clone()
+		apply(trial)
+		trial.path = append(trial.path, b)
+		broken := map[*ssa.Phi]bool{}
+		var trip func(x *ssa.BasicBlock, st *splitState, depth int)
+		trip = func(x *ssa.BasicBlock, st *splitState, depth int) {
+			if depth > 60 {
+				for _, c := range cs {
+					broken[c.ph] = true
+				}
+				return
+			}
+			if x == b {
+				// arrived at the header through a back edge
+				pred := st.path[len(st.path)-1]
+				for _, c := range cs {
+					if !c.diffOK {
+						continue
+					}
+					for j, pb := range b.Preds {
+						if pb != pred {
+							continue
+						}
+						base, k := linear(c.ph.Edges[j])
+						if base != ssa.Value(c.ph) || st.getDiff(c.ph).lo-k < 0 {
+							broken[c.ph] = true
+						}
+					}
+				}
+				return
+			}
+			for _, pb := range st.path[len(s.path)+1:] {
+				if pb == x {
+					return // an inner cycle: give up on precision, not on soundness
+				}
+			}
+			st.path = append(st.path, x)
+			switch t := x.Instrs[len(x.Instrs)-1].(type) {
+			case *ssa.If:
+				for i, succ := range x.Succs {
+					ns := st.clone()
+					if a.refine(ns, t.Cond, i == 0) {
+						trip(succ, ns, depth+1)
+					}
+				}
+			case *ssa.Jump:
+				trip(x.Succs[0], st.clone(), depth+1)
+			}
+		}
+		switch t := b.Instrs[len(b.Instrs)-1].(type) {
+		case *ssa.If:
+			for i, succ := range b.Succs {
+				ns := trial.clone()
+				if a.refine(ns, t.Cond, i == 0) {
+					trip(succ, ns, 0)
+				}
+			}
+		case *ssa.Jump:
+			trip(b.Succs[0], trial.clone(), 0)
+		}
+		if len(broken) == 0 {
+			break
+		}
+		for _, c := range cs {
+			if broken[c.ph] {
+				c.diffOK = false
+			}
+		}
+	}
+	apply(s)
+}
+
 func (a *splitAnalysis) walk(b *ssa.BasicBlock, s *splitState) {
 	for _, pb := range s.path {
 		if pb == b {
-			return
+			return // back at a loop header: covered by the havocked state it was entered with
 		}
+	}
+	if a.nPaths > 20000 {
+		a.undecided = "too many paths through the split function"
+		return
+	}
+	if isLoopHeader(b) && len(s.path) > 0 {
+		a.enterLoop(b, s)
+	} else if isLoopHeader(b) {
+		a.undecided = "the entry block of the split function is a loop header"
+		return
 	}
 	s.path = append(s.path, b)
 	last := b.Instrs[len(b.Instrs)-1]
